@@ -26,28 +26,35 @@ def cosModOfName : String → Option CosMod
 /-- `cosopt <R|_> (<modifier names>)`: model = GetCosmeticOption on the parsed rule's bits and the
     decoded flags; spec = reference computed from the modifier *names* of the rule text. -/
 def opCosopt (args : List W) : String :=
-  let go (r : W) (names : List W) (src : Option (List W)) : String :=
+  let go (r : W) (names : List W) (src : Option (List W)) (matched : Option (List W) := none) : String :=
     let basic0 : Option (Option NetRule) := if r.isNone then some none else (decNetRule r).map some
     let mods := names.mapM fun w => match w with | .a s => cosModOfName s | _ => none
     let srcRules : Option (List NetRule) := match src with
       | none => some []
       | some ws => ws.mapM decNetRule
-    match basic0, mods, srcRules with
-    | some basic0, some mods, some srcRules =>
-      -- with referrer rules the basic rule is what NewMatchingResult selects (model of group C)
-      let basic := match src with
-        | none => basic0
-        | some _ => (newMatchingResult basic0.toList srcRules).basicRule
+    let matchedRules : Option (Option (List NetRule)) := match matched with
+      | none => some none
+      | some ws => (ws.mapM decNetRule).map some
+    match basic0, mods, srcRules, matchedRules with
+    | some basic0, some mods, some srcRules, some matchedRules =>
+      -- with referrer rules the basic rule is what NewMatchingResult selects (model of group C); with a list of
+      -- matched rules (fourth argument: the rule `r` among withdrawn `$badfilter` pairs and weaker rules, in match
+      -- order) it is what NewMatchingResult selects from THAT list
+      let basic := match src, matchedRules with
+        | _, some rs => (newMatchingResult rs srcRules).basicRule
+        | none, none => basic0
+        | some _, none => (newMatchingResult basic0.toList srcRules).basicRule
       let o := getCosmeticOption basic
       let (c, j, g) := decodeCosmeticFlags o
       let exc := match basic0 with | some r => r.whitelist | none => false
       let s := specCosmeticOption exc mods
       let (sc, sj, sg) := decodeCosmeticFlags s
       s!"{o.toNat}:{outBool c}{outBool j}{outBool g} {s.toNat}:{outBool sc}{outBool sj}{outBool sg}"
-    | _, _, _ => "bad-decode"
+    | _, _, _, _ => "bad-decode"
   match args with
   | [r, .l names] => go r names none
   | [r, .l names, .l src] => go r names (some src)
+  | [r, .l names, .l src, .l matched] => go r names (some src) (some matched)
   | _ => "bad-arity"
 
 def dispatchCore (op : String) (args : List W) : Option String :=
